@@ -7,16 +7,19 @@
     probe subclasses of the real families are run on float64 and on Fraction arrays and compared exactly.
 Side check (Python only, labelled): real decorated fits, recorded indices = sample ids of the batch at every step."""
 import json
+from concurrent.futures import ThreadPoolExecutor
 from collections import Counter, defaultdict
 from fractions import Fraction
 import numpy as np
 from vf import mlcl
 from vf.report import Report
 
-# (ids, nch, fraction, theorems)
-ACCEPT = {"quick": [((0, 3, 7, 12), 64, 1.0, "all"), ((0, 1, 2, 3), 64, 1.0, "none")],
-          "thorough": [((0, 3, 7, 12), 64, 1.0, "all"), ((0, 1, 2, 3), 64, 1.0, "all"), ((5, 41, 100, 1000), 64, 1.0, "all"),
-                       ((0, 3, 7, 12, 20), 64, 1 / 16, "none"), ((1, 2, 4, 8, 9), 64, 1 / 32, "none")]}
+# (ids, nch, fraction, theorems, forms in which each set is presented to the code)
+ALLV, SHUF = mlcl.VARIANTS, mlcl.VARIANTS[2:]
+ACCEPT = {"quick": [((0, 3, 7, 12), 64, 1.0, "all", ALLV), ((0, 1, 2, 3), 64, 1.0, "none", SHUF)],
+          "thorough": [((0, 3, 7, 12), 64, 1.0, "all", ALLV), ((0, 1, 2, 3), 64, 1.0, "all", ALLV),
+                       ((5, 41, 100, 1000), 64, 1.0, "all", ALLV), ((0, 3, 7, 12, 20), 64, 1 / 16, "none", SHUF),
+                       ((1, 2, 4, 8, 9), 64, 1 / 32, "none", SHUF)]}
 SELF = {"quick": [((0, 3, 7, 12), 16, 1)], "thorough": [((0, 3, 7, 12), 16, 2), ((0, 3, 7, 12, 20), 16, 1)]}
 # (ids, nch, fraction, K, FAMMAX, NV, NFAC, theorems)
 INJECT = {"quick": [((0, 3, 7, 12), 64, 1.0, 2, 2, 2, 3, "some")],
@@ -51,12 +54,12 @@ class Findings:
 
 
 # ---------------------------------------------------------------------------------------------------------------------
-def check_accept_case(rep, fnd, case, n):
+def check_accept_case(rep, fnd, case, n, variants=mlcl.VARIANTS):
     ml, cl, want = case["ml"], case["cl"], case["accept"]
     key = (case["mode"], ml, cl)
     rep.case(key)
     bad = []
-    for variant in mlcl.VARIANTS:
+    for variant in variants:
         a = mlcl.present(ml, variant, ("ml", key))
         b = mlcl.present(cl, variant, ("cl", key))
         verdict, info = mlcl.call_real(a, b, n=n)
@@ -110,19 +113,23 @@ def check_inject_group(rep, fnd, cases, n_total, stats):
     ml, cl, f = c0["ml"], c0["cl"], Fraction(c0["f"][0], c0["f"][1])
     gkey = ("inject", ml, cl, c0["f"])
     models = {}
-    for family in ("linear", "mlp", "categorical"):
-        for exact in (False, True):
-            factor = int(f) if f.denominator == 1 else float(f)     # dyadic: exact in float64 as well
-            m, err = mlcl.decorated_probe(family, ml, cl, factor, (gkey, family, exact))
-            if m is None:
-                tags = ["rejects-consistent", "inject-blocked"]
-                if "Triangular contradiction" in str(err) and not mlcl.positions_model(ml, cl):
-                    tags.append("structural-positions-vs-ids")
-                fnd.add(len(ml) + len(cl), f"consistent set must_link={ml} cannot_link={cl} factor={factor!r} refused: "
-                                           f"{type(err).__name__}: {str(err)[:90]}; gradient injection could not be checked",
-                        {"kind": "accept", "case": {"mode": "accept", "ml": ml, "cl": cl, "accept": True}}, tags)
-                return
-            models[(family, exact)] = m
+    factor = int(f) if f.denominator == 1 else float(f)     # dyadic factors: exact in float64 as well
+    # the two batching families share DiscriminativeModel._batchify: MLP is run in float64 only
+    for family, exact in (("linear", False), ("linear", True), ("mlp", False), ("categorical", False), ("categorical", True)):
+        m, err = mlcl.decorated_probe(family, ml, cl, factor, (gkey, family, exact))
+        if m is None:
+            tags = ["rejects-consistent", "inject-blocked"]
+            if "Triangular contradiction" in str(err) and not mlcl.positions_model(ml, cl):
+                tags.append("structural-positions-vs-ids")
+            fnd.add(len(ml) + len(cl), f"consistent set must_link={ml} cannot_link={cl} factor={factor!r} refused: "
+                                       f"{type(err).__name__}: {str(err)[:90]}; gradient injection could not be checked",
+                    {"kind": "accept", "case": {"mode": "accept", "ml": ml, "cl": cl, "accept": True}}, tags)
+            return
+        models[(family, exact)] = m
+    partners = {}
+    for i, j in ml + cl:
+        partners.setdefault(i, set()).add(j)
+        partners.setdefault(j, set()).add(i)
     for case in cases:
         idx = case["idx"]
         want = [[Fraction(v[0], v[1]) for v in row] for row in case["out"]]
@@ -140,18 +147,18 @@ def check_inject_group(rep, fnd, cases, n_total, stats):
             except Exception as e:
                 got, problems = None, [f"raised {type(e).__name__}: {e}"]
             for pb in problems:
-                tags = ("batch-indices-not-recorded",) if "recorded" in pb else ("batchify-driver",)
+                tags = ("batch-indices-not-recorded",) if "recorded" in pb else \
+                    (("decorated-call-raises",) if pb.startswith("raised") else ("batchify-driver",))
                 fnd.add(len(idx), f"{family}/{'Fraction' if exact else 'float64'} batch={idx} ml={ml} cl={cl}: {pb}",
                         {"kind": "inject", "case": case, "family": family, "exact": exact, "n_total": n_total}, tags)
             if got is not None and got != want:
                 rows = [p for p in range(len(idx)) if got[p] != want[p]]
-                linked = {s for pr in ml + cl for s in pr}
-                wrong_untouched = [p for p in rows if want[p] == [Fraction(v) for v in case["g"][p]]]
-                tags = ["wrong-injected-gradient"]
-                tags.append("touches-other-rows" if wrong_untouched else "wrong-value-on-linked-rows")
-                if any(idx[p] not in linked for p in rows):
+                # a row is "linked" when its sample has a must-/cannot-link partner inside this batch
+                other = [p for p in rows if not (partners.get(idx[p], set()) & set(idx))]
+                tags = ["wrong-injected-gradient", "touches-other-rows" if other else "wrong-value-on-linked-rows"]
+                if any(idx[p] not in partners for p in rows):
                     tags.append("unconstrained-sample-modified")
-                fnd.add(len(idx) * 10 + len(ml) + len(cl),
+                fnd.add(10 + len(idx) * 10 + len(ml) + len(cl),
                         f"{family}/{'Fraction' if exact else 'float64'} batch ids={idx} must_link={ml} cannot_link={cl} "
                         f"factor={f} y={case['y']} g={case['g']}: decorated _compute_grads gave "
                         f"{[[str(v) for v in r] for r in got]}, spec Inject = {[[str(v) for v in r] for r in want]} "
@@ -159,9 +166,8 @@ def check_inject_group(rep, fnd, cases, n_total, stats):
                         {"kind": "inject", "case": case, "family": family, "exact": exact, "n_total": n_total}, tags)
 
 
-def run_inject(rep, fnd, ids, nch, frac, k, fammax, nv, nfac, thm, stats):
-    r, note = mlcl.enumerate_cases("inject", ids, nch=nch, frac=frac, k=k, fammax=fammax, nv=nv, nfac=nfac, thm=thm,
-                                   timeout=1500)
+def run_inject(rep, fnd, tlc_result, ids, k, fammax, nv, nfac, thm, stats):
+    r, note = tlc_result
     rep.add_tlc("Mlcl", r, note=f"mode=inject ids={list(ids)} K={k} FAMMAX={fammax} NV={nv} NFAC={nfac} thm={thm} chunks={note}")
     groups = defaultdict(list)
     for case in r.prints:
@@ -206,7 +212,7 @@ def fit_side_check(rep, fnd, stats):
             try:
                 add_mlcl_constraint(model, must_link=ml, cannot_link=cl, factor=factor)
             except Exception as e:
-                fnd.add(4, f"side check: consistent set ml={ml} cl={cl} refused: {type(e).__name__}: {e}",
+                fnd.add(1000, f"side check: consistent set ml={ml} cl={cl} refused: {type(e).__name__}: {e}",
                         {"kind": "fit", "model": name}, ("rejects-consistent", "fit-side-check"))
                 return
             outer = model._compute_grads
@@ -218,7 +224,7 @@ def fit_side_check(rep, fnd, stats):
             try:
                 model.fit(X)
             except Exception as e:
-                fnd.add(4, f"side check: decorated {name}.fit raised {type(e).__name__}: {e}",
+                fnd.add(1000, f"side check: decorated {name}.fit raised {type(e).__name__}: {e}",
                         {"kind": "fit", "model": name}, ("decorated-fit-raises", "fit-side-check"))
                 continue
             bs = kw.get("batch_size") or n
@@ -226,27 +232,27 @@ def fit_side_check(rep, fnd, stats):
                 bs = n
             nb = -(-n // bs)
             if len(log) != 2 * nb:
-                fnd.add(4, f"side check: {name}: {len(log)} gradient steps in 2 epochs, expected {2 * nb}",
+                fnd.add(1000, f"side check: {name}: {len(log)} gradient steps in 2 epochs, expected {2 * nb}",
                         {"kind": "fit", "model": name}, ("fit-side-check", "step-count"))
             for step, ev in enumerate(log):
                 stats["fit_steps"] += 1
                 rep.case(("fit", name, step), nontrivial=False)
                 if ev.get("recorded") != ev.get("ids"):
-                    fnd.add(4, f"side check: {name} step {step}: recorded indices {ev.get('recorded')} != sample ids of "
+                    fnd.add(1000, f"side check: {name} step {step}: recorded indices {ev.get('recorded')} != sample ids of "
                                f"the batch {ev.get('ids')}", {"kind": "fit", "model": name, "step": step},
                             ("batch-indices-not-recorded", "fit-side-check"))
                     continue
                 ref = mlcl.reference_delta(ev["ids"], ev["y"], ml, cl, factor)
                 delta = ev["after"] - ev["before"]
                 if np.all(np.isfinite(delta)) and not np.allclose(delta, ref, rtol=1e-9, atol=1e-12):
-                    fnd.add(4, f"side check: {name} step {step} batch {ev['ids']}: extra gradient {delta.tolist()} != "
+                    fnd.add(1000, f"side check: {name} step {step} batch {ev['ids']}: extra gradient {delta.tolist()} != "
                                f"documented {ref.tolist()}", {"kind": "fit", "model": name, "step": step},
                             ("wrong-injected-gradient", "fit-side-check"))
                 stats["fit_steps_with_pairs"] += bool(np.any(ref != 0))
             for epoch in range(2):
                 seen = sorted(i for ev in log[epoch * nb:(epoch + 1) * nb] for i in ev.get("ids", []))
                 if seen != list(range(n)):
-                    fnd.add(4, f"side check: {name} epoch {epoch}: batches cover {seen}", {"kind": "fit", "model": name},
+                    fnd.add(1000, f"side check: {name} epoch {epoch}: batches cover {seen}", {"kind": "fit", "model": name},
                             ("fit-side-check", "epoch-coverage"))
 
 
@@ -261,35 +267,51 @@ def run(tier):
                 "(consistent family member, batch = ordered selection of the ids or whole data, value assignment, "
                 "factor, model family, arithmetic); non-trivial when at least one gradient row must change")
     n_accept = Counter()
-    for ids, nch, frac, thm in ACCEPT[tier]:
-        r, note = mlcl.enumerate_cases("accept", ids, nch=nch, frac=frac, thm=thm, timeout=1200)
-        rep.add_tlc("Mlcl", r, note=f"mode=accept ids={list(ids)} thm={thm} chunks={note}")
-        for n, case in enumerate(r.prints):
-            check_accept_case(rep, fnd, case, n)
-            n_accept[case["accept"]] += 1
-        if ids == ACCEPT[tier][0][0]:
-            for want in (True, False):
-                c = max((c for c in r.prints if c["accept"] == want), key=lambda c: (len(c["ml"]) == 2, len(c["cl"]) == 2), default=None)
-                if c:
-                    rep.sample(c)
+    # TLC runs are submitted up front (two at a time) so that they overlap with the single-threaded replay into the code
+    pool = ThreadPoolExecutor(max_workers=2)
+    jobs = []
+    for ids, nch, frac, thm, variants in ACCEPT[tier]:
+        jobs.append(pool.submit(mlcl.enumerate_cases, "accept", ids, nch=nch, frac=frac, thm=thm, timeout=1200))
     for ids, nch, fammax in SELF[tier]:
-        r, note = mlcl.enumerate_cases("self", ids, nch=nch, fammax=fammax, thm="all", timeout=600)
-        rep.add_tlc("Mlcl", r, note=f"mode=self ids={list(ids)} base sets <= {fammax} pairs")
-        for n, case in enumerate(r.prints):
-            check_accept_case(rep, fnd, case, n)
-            n_accept[case["accept"]] += 1
-    r, _ = mlcl.enumerate_cases("shape", (0, 3, 7, 12), nch=1, thm="none", timeout=300)
-    rep.add_tlc("Mlcl", r, note="mode=shape")
-    for case in r.prints:
-        check_shape_case(rep, fnd, case)
-    stats["shape_cases"] = len(r.prints)
+        jobs.append(pool.submit(mlcl.enumerate_cases, "self", ids, nch=nch, fammax=fammax, thm="all", timeout=600))
+    jobs.append(pool.submit(mlcl.enumerate_cases, "shape", (0, 3, 7, 12), nch=1, thm="none", timeout=300))
     for ids, nch, frac, k, fammax, nv, nfac, thm in INJECT[tier]:
-        stats["inject_cases"] += run_inject(rep, fnd, ids, nch, frac, k, fammax, nv, nfac, thm, stats)
+        jobs.append(pool.submit(mlcl.enumerate_cases, "inject", ids, nch=nch, frac=frac, k=k, fammax=fammax, nv=nv,
+                                nfac=nfac, thm=thm, timeout=1500))
+    jobs.reverse()
+    try:
+        for ids, nch, frac, thm, variants in ACCEPT[tier]:
+            r, note = jobs.pop().result()
+            rep.add_tlc("Mlcl", r, note=f"mode=accept ids={list(ids)} thm={thm} chunks={note}")
+            for n, case in enumerate(r.prints):
+                check_accept_case(rep, fnd, case, n, variants)
+                n_accept[case["accept"]] += 1
+            if ids == ACCEPT[tier][0][0]:
+                for want in (True, False):
+                    c = max((c for c in r.prints if c["accept"] == want),
+                            key=lambda c: (len(c["ml"]) == 2, len(c["cl"]) == 2), default=None)
+                    if c:
+                        rep.sample(c)
+        for ids, nch, fammax in SELF[tier]:
+            r, note = jobs.pop().result()
+            rep.add_tlc("Mlcl", r, note=f"mode=self ids={list(ids)} base sets <= {fammax} pairs")
+            for n, case in enumerate(r.prints):
+                check_accept_case(rep, fnd, case, n)
+                n_accept[case["accept"]] += 1
+        r, _ = jobs.pop().result()
+        rep.add_tlc("Mlcl", r, note="mode=shape")
+        for case in r.prints:
+            check_shape_case(rep, fnd, case)
+        stats["shape_cases"] = len(r.prints)
+        for ids, nch, frac, k, fammax, nv, nfac, thm in INJECT[tier]:
+            stats["inject_cases"] += run_inject(rep, fnd, jobs.pop().result(), ids, k, fammax, nv, nfac, thm, stats)
+    finally:
+        pool.shutdown(wait=True, cancel_futures=True)
     fit_side_check(rep, fnd, stats)
     fnd.flush(rep)
     rep.extra["accept_cases"] = {"spec_accept": n_accept[True], "spec_reject": n_accept[False]}
     rep.extra["inject"] = dict(stats)
-    rep.exhaustive = tier == "quick" or all(f >= 1.0 for _, _, f, _ in ACCEPT[tier])
+    rep.exhaustive = tier == "quick" or all(c[2] >= 1.0 for c in ACCEPT[tier])
     rep.assumptions = [
         "constraint sets range over <= 5 distinct sample ids (all subsets of the unordered pairs for 4 ids, a seeded "
         "1/16 sample for 5); pairs are sets: a pair listed twice is outside the enumerated space",
